@@ -595,6 +595,113 @@ class IndexGrid:
         self.rows = rows
 
 
+class IndexGrid2:
+    """A pair of equally shaped 2-D arrays of integer positions used to index a 2-D array (a gather / scatter: result[i, j] is
+    a[rows[i][j], cols[i][j]])."""
+
+    def __init__(self, rows, cols):
+        self.rows, self.cols = rows, cols
+
+
+class IndexGrid3:
+    """A 3-D array of integer positions used to index a 1-D array (the result is a stack of matrices of the grid's shape)."""
+
+    def __init__(self, mats):
+        self.mats = mats
+
+
+# ----------------------------------------------------------------------------------------------- small N-d helper (ndim <= 3)
+def nd_of(x):
+    """(shape, row-major flat list) of a scalar, an Arr (1-D / 2-D) or an Arr3."""
+    if isinstance(x, Arr3):
+        return tuple(x.shape), [e for m_ in x.mats for e in m_.flat()]
+    if isinstance(x, Arr):
+        return tuple(x.shape), list(x.flat())
+    return (), [x]
+
+
+def nd_wrap(shape, flat):
+    shape = tuple(shape)
+    if len(shape) == 0:
+        return flat[0]
+    if len(shape) == 1:
+        return Arr(list(flat), 1)
+    if len(shape) == 2:
+        r, c = shape
+        return Arr([list(flat[i * c:(i + 1) * c]) for i in range(r)], 2)
+    if len(shape) == 3:
+        k, r, c = shape
+        if k == 0:
+            raise Unsupported("empty stack of matrices")
+        return Arr3([Arr([list(flat[(m * r + i) * c:(m * r + i + 1) * c]) for i in range(r)], 2) for m in range(k)])
+    raise Unsupported("array with %d dimensions" % len(shape))
+
+
+def nd_broadcast_shape(s1, s2):
+    n = max(len(s1), len(s2))
+    a, b = (1,) * (n - len(s1)) + tuple(s1), (1,) * (n - len(s2)) + tuple(s2)
+    out = []
+    for x, y in zip(a, b):
+        if x == y or y == 1:
+            out.append(x)
+        elif x == 1:
+            out.append(y)
+        else:
+            raise PathRaise("ValueError(operands could not be broadcast together with shapes %s %s)" % (tuple(s1), tuple(s2)), "array arithmetic")
+    return tuple(out)
+
+
+def nd_expand(shape, flat, target):
+    """The flat list of the array (shape, flat) broadcast to shape `target`."""
+    n = len(target)
+    shp = (1,) * (n - len(shape)) + tuple(shape)
+    strides, acc = [], 1
+    for d in reversed(shp):
+        strides.append(acc)
+        acc *= d
+    strides = list(reversed(strides))
+    out = []
+    import itertools as _it
+    for pos in _it.product(*[range(d) for d in target]):
+        off = sum((p_ if shp[k] > 1 else 0) * strides[k] for k, p_ in enumerate(pos))
+        out.append(flat[off])
+    return out
+
+
+def nd_basic_index(shape, flat, idx, where="index"):
+    """numpy basic indexing (ints, slices, None) of the array (shape, flat); returns (shape, flat)."""
+    import itertools as _it
+    idx = list(idx)
+    n_real = sum(1 for x in idx if x is not None)
+    if n_real > len(shape):
+        raise PathRaise("IndexError(too many indices for array)", where)
+    idx += [slice(None)] * (len(shape) - n_real)
+    axes, out_shape, dim = [], [], 0
+    for x in idx:
+        if x is None:
+            out_shape.append(1)
+            continue
+        size = shape[dim]
+        if isinstance(x, int):
+            if not -size <= x < size:
+                raise PathRaise("IndexError(index %d is out of bounds for axis %d with size %d)" % (x, dim, size), where)
+            axes.append([x % size])
+        elif isinstance(x, slice):
+            r_ = list(range(size))[x]
+            axes.append(r_)
+            out_shape.append(len(r_))
+        else:
+            raise Unsupported("index %r in a multi-dimensional subscript" % (x,))
+        dim += 1
+    strides, acc = [], 1
+    for d in reversed(shape):
+        strides.append(acc)
+        acc *= d
+    strides = list(reversed(strides))
+    out = [flat[sum(p_ * strides[k] for k, p_ in enumerate(pos))] for pos in _it.product(*axes)]
+    return tuple(out_shape), out
+
+
 class Opaque:
     """An uninterpreted python-level value (module, function reference, ...)."""
 
@@ -670,6 +777,7 @@ class Interp:
         self.wraps = []          # (marker name, inner + offset) per unwrap, in mark mode
         self.vfs = None          # virtual file system: path -> VFile
         self.thin = False
+        self.warn_filters = []       # (action, category name), newest first -- warnings.simplefilter / filterwarnings / catch_warnings
         self.yield_stack = []
         self.class_attrs = {}    # (class name, attribute) -> value stored at run time on a class object
         self.globals_cache = {}  # (module, name) -> value of a module-level / class-level binding (evaluated once, shared)
@@ -769,48 +877,134 @@ class Interp:
         return False
 
     def equalities(self):
-        """(substitution {var: constant} implied by the exact-equality decisions of this path, all of them accounted for?)
+        """(substitution {var: constant or polynomial} implied by the exact-equality decisions of this path, all accounted for?)
 
-        Derived to a fixpoint from the path's `== 0` facts with two sound rules over the reals:
+        Derived to a fixpoint from the path's `== 0` facts with sound rules over the reals:
           c*x + k == 0            =>  x = -k/c
           sum_i c_i * x_i^2 == 0  =>  every x_i = 0      (all c_i of one sign, no constant term)
-        An equality that becomes 0 == 0 under the substitution is accounted for; anything else makes the path "not simple"."""
+          c*x + P == 0            =>  x = -P/c           (x occurs nowhere in P)
+        A substituted variable that is constrained by a rewriting rule (the scalar part of a unit quaternion) contributes the
+        equation `value^2 == rule`; an angle may only be renamed to another angle or set to 0 (its cos / sin follow).  An equality
+        that becomes 0 == 0 under the substitution is accounted for; anything else makes the path "not simple"."""
+        R_ = poly.R
         sub = {}
+        simple = True
         pending = [Poly(dict(k)) for k, signs in self.facts.items() if signs == {0}]
+        dep = getattr(self.hook, "depends", None)
+        self._eq_blocked = False
+        self._eq_bound_generic = set()
+        generic_eqs = [e for e in pending if dep(e)] if dep is not None else []
+
+        touched_atoms = set()
+
+        def bind(name, value):
+            nonlocal simple
+            value = poly.as_poly(value)
+            vi = poly.var_index(name)
+            for k_ in list(sub):
+                sub[k_] = poly.as_poly(sub[k_]).subs({name: value})
+            sub[name] = value
+            if name in R_.angles:
+                # the angle's cos / sin follow from the addition formulas when the new value is an integer combination of angles
+                # (plus a multiple of pi/2); anything else is not a polynomial substitution
+                try:
+                    c_new, s_new = self.cos_sin(value, None)
+                    sub["cos(%s)" % name], sub["sin(%s)" % name] = c_new, s_new
+                except Unsupported:
+                    simple = False
+            if vi in R_.sq_rules and vi not in R_.atom_arg:
+                pending.append(value * value - R_.sq_rules[vi])
+            touched_atoms.update(ai for ai, (kind, arg) in R_.atom_arg.items() if name in arg.variables())
+
         changed = True
         while changed and pending:
             changed = False
             rest = []
             for e in pending:
                 e2 = e.subs(sub) if sub else e
+                if sub:
+                    e2 = e2.subs(sub)        # a rewriting rule may have re-introduced a substituted variable
                 if e2.is_zero():
                     changed = True
                     continue
                 terms = e2.t
                 nonconst = [(m, c) for m, c in terms.items() if m != ()]
                 if len(nonconst) == 1 and len(nonconst[0][0]) == 1 and nonconst[0][0][0][1] == 1:
-                    v = poly.R.vars[nonconst[0][0][0][0]]
-                    sub[v] = -Fraction(terms.get((), 0)) / Fraction(nonconst[0][1])
+                    v = R_.vars[nonconst[0][0][0][0]]
+                    bind(v, Poly.const(-Fraction(terms.get((), 0)) / Fraction(nonconst[0][1])))
                     changed = True
                     continue
                 if () not in terms and nonconst and all(len(m) == 1 and m[0][1] == 2 for m, c in nonconst) and \
                         (all(c > 0 for m, c in nonconst) or all(c < 0 for m, c in nonconst)):
                     for m, c in nonconst:
-                        sub[poly.R.vars[m[0][0]]] = Fraction(0)
+                        bind(R_.vars[m[0][0]], Poly())
                     changed = True
                     continue
                 # c_1 x_1 + ... + c_n x_n == 0 with all c_i of one sign and every x_i a quantity that is non-negative by nature (the
                 # chi^2 of an edge): every x_i = 0
                 if () not in terms and nonconst and self.nonneg_prefixes and all(len(m) == 1 and m[0][1] == 1 and
-                                                                                poly.R.vars[m[0][0]].startswith(tuple(self.nonneg_prefixes)) for m, c in nonconst) and \
+                                                                                R_.vars[m[0][0]].startswith(tuple(self.nonneg_prefixes)) for m, c in nonconst) and \
                         (all(c > 0 for m, c in nonconst) or all(c < 0 for m, c in nonconst)):
                     for m, c in nonconst:
-                        sub[poly.R.vars[m[0][0]]] = Fraction(0)
+                        bind(R_.vars[m[0][0]], Poly())
+                    changed = True
+                    continue
+                # c*x + P == 0 with x a plain variable that occurs nowhere else in the equation
+                pick = None
+                for m, c in nonconst:
+                    if len(m) == 1 and m[0][1] == 1:
+                        vi = m[0][0]
+                        nm = R_.vars[vi]
+                        if vi in R_.atom_arg or nm.startswith(("cos(", "sin(")) or "#" in nm:
+                            continue
+                        if any(vi == v_ for m2, _ in nonconst if m2 != m for v_, _e in m2):
+                            continue
+                        pick = (nm, m, c)
+                        break
+                if pick is not None:
+                    nm, m, c = pick
+                    rest_p = Poly({k_: v_ for k_, v_ in terms.items() if k_ != m})
+                    bind(nm, rest_p.scale(-1 / Fraction(c)))
                     changed = True
                     continue
                 rest.append(e2)
             pending = rest
-        return sub, not pending
+        # square roots whose argument mentions a substituted variable: a rational constant when the argument becomes the square of
+        # one (sqrt(1 - |d|^2) at d = 0), otherwise not a polynomial substitution
+        import math as _math
+        for _ in range(3):
+            for ai in sorted(touched_atoms):
+                nm = R_.vars[ai]
+                if nm in sub:
+                    continue
+                a2 = R_.atom_arg[ai][1].subs(sub)
+                a2 = a2.subs(sub) if sub else a2
+                c_ = a2.const_value()
+                if c_ is not None and Fraction(c_) >= 0:
+                    f_ = Fraction(c_)
+                    x_, y_ = _math.isqrt(f_.numerator), _math.isqrt(f_.denominator)
+                    if x_ * x_ == f_.numerator and y_ * y_ == f_.denominator:
+                        sub[nm] = Poly.const(Fraction(x_, y_))
+                        for k_ in list(sub):
+                            if k_ != nm:
+                                sub[k_] = poly.as_poly(sub[k_]).subs({nm: sub[nm]})
+        if any(R_.vars[ai] not in sub for ai in touched_atoms):
+            simple = False
+        self._eq_pending = list(pending)       # what the substitution does not account for (non-linear equalities)
+        if generic_eqs:
+            # exact equalities in the variables the obligation differentiates by (the increment d): acceptable only when all they say
+            # is `d_i = 0 for i in S` -- the path is then the coordinate subspace d_S = 0, on which the derivative with respect to the
+            # remaining increment variables is still meaningful (the obligation compares those columns only); anything else blocks
+            gv = getattr(self.hook, "generic_vars", set())
+            bound = {v for v in gv if v in sub}
+            zero_only = all(poly.as_poly(sub[v]).is_zero() for v in bound)
+            zsub = {v: 0 for v in bound}
+            if zero_only and bound and all(e.subs(zsub).is_zero() for e in generic_eqs):
+                self._eq_bound_generic = bound
+            else:
+                simple = False
+                self._eq_blocked = True
+        return sub, simple and not pending
 
     def known_zero(self, d):
         """Is polynomial d known to vanish on this path (identically, or by an equality decision taken earlier)?"""
@@ -911,22 +1105,157 @@ class Interp:
                 continue
             j = i - (len(params) - ndef)
             if j < 0:
-                raise self.unsupported("missing argument %s for %s" % (p, fn_label(fn)), fn)
-            env[p] = defaults[j] if defaults is not None else self.ev(a.defaults[j], {})
+                raise PathRaise("TypeError(missing argument %s for %s)" % (p, fn_label(fn)), self.where(fn))
+            env[p] = defaults[j] if defaults is not None else self.default_value(fn, ("pos", j), a.defaults[j])
         for idx_, (p, d) in enumerate(zip(a.kwonlyargs, a.kw_defaults)):
             if p.arg in kw:
                 env[p.arg] = kw.pop(p.arg)
             elif d is not None:
-                env[p.arg] = kw_defaults[idx_] if kw_defaults is not None else self.ev(d, {})
+                env[p.arg] = kw_defaults[idx_] if kw_defaults is not None else self.default_value(fn, ("kw", idx_), d)
             else:
-                raise self.unsupported("missing kw-only argument", fn)
+                raise PathRaise("TypeError(missing keyword-only argument %s for %s)" % (p.arg, fn_label(fn)), self.where(fn))
         if a.kwarg:
             env[a.kwarg.arg] = dict(kw)
             kw = {}
         if kw:
-            raise self.unsupported("unexpected keyword(s) %s for %s" % (sorted(kw), fn_label(fn)), fn)
+            raise PathRaise("TypeError(unexpected keyword(s) %s for %s)" % (sorted(kw), fn_label(fn)), self.where(fn))
         env["__class__"] = ClassRef(getattr(fn, "_gs_class", None) or "?")
         return self.run(fn, env)
+
+    def sort_values(self, seq, keyf, rev, n):
+        """sorted(seq, key=, reverse=): stable; every comparison of symbolic keys is a decision (explored both ways).  Keys are numbers,
+        strings, or tuples / lists of them (compared lexicographically)."""
+        keys = [self.call_value(keyf, [x], n) for x in seq] if keyf is not None else list(seq)
+        if all(isinstance(x, str) for x in keys):
+            order = sorted(range(len(seq)), key=lambda i: keys[i], reverse=bool(rev))
+            return [seq[i] for i in order]
+
+        def norm(k):
+            if isinstance(k, Wrapped):
+                k = self.unwrap(k, n)
+            if isinstance(k, (Poly, str)):
+                return k
+            if isinstance(k, (list, tuple)):
+                return tuple(norm(x) for x in k)
+            if isinstance(k, Arr) and k.ndim == 1:
+                raise PathRaise("ValueError(the truth value of an array with more than one element is ambiguous)", self.where(n))
+            raise self.unsupported("sort key %r" % (k,), n)
+
+        def less(a, b, need_eq=False):
+            """a < b ?  (None: equal -- only distinguished from 'greater' when need_eq)"""
+            if isinstance(a, Poly) and isinstance(b, Poly):
+                d = a - b
+                if d.is_zero():
+                    return None
+                if self.decide_sign(d, {-1}, "%s < %s" % (a.short(30), b.short(30))):
+                    return True
+                if need_eq and self.decide_sign(d, {0}, "%s == %s" % (a.short(30), b.short(30))):
+                    return None
+                return False
+            if isinstance(a, str) and isinstance(b, str):
+                return None if a == b else a < b
+            if isinstance(a, tuple) and isinstance(b, tuple):
+                for x, y in zip(a, b):
+                    r_ = less(x, y, True)
+                    if r_ is not None:
+                        return r_
+                return None if len(a) == len(b) else len(a) < len(b)
+            raise PathRaise("TypeError('<' not supported between these keys)", self.where(n))
+        keys = [norm(k) for k in keys]
+        descending = self.truth(rev, n) if not isinstance(rev, bool) else rev
+        order = []
+        for i in range(len(seq)):
+            pos = len(order)
+            while pos > 0:
+                j = order[pos - 1]
+                r_ = less(keys[i], keys[j]) if not descending else less(keys[j], keys[i])
+                if r_ is not True:
+                    break            # equal keys keep their original order (also with reverse=True)
+                pos -= 1
+            order.insert(pos, i)
+        return [seq[i] for i in order]
+
+    WARNING_BASES = {"MatrixRankWarning": "UserWarning", "SparseEfficiencyWarning": "SparseWarning", "SparseWarning": "Warning",
+                     "UserWarning": "Warning", "RuntimeWarning": "Warning", "DeprecationWarning": "Warning", "FutureWarning": "Warning",
+                     "Warning": "Exception"}
+
+    def warning_action(self, cname):
+        """What the current warning filters do with a warning of class cname ("default" when no filter matches)."""
+        anc, x = set(), cname
+        while x is not None and x not in anc:
+            anc.add(x)
+            x = self.WARNING_BASES.get(x, "Warning" if x not in ("Warning", "Exception") else None)
+        for action, cat in self.warn_filters:
+            if cat in anc:
+                return action
+        return "default"
+
+    def emit_warning(self, cname, node=None):
+        """A warning of class cname is issued here: an `error` filter turns it into an exception."""
+        if self.warning_action(cname) == "error":
+            raise PathRaise("%s(warning turned into an error by the active filter)" % cname, self.where(node) if node is not None else "a warning")
+
+    def any_nonzero(self, items, n):
+        """any(x != 0 for x in items) for numbers: ONE decision on the sum of squares (over the reals it vanishes exactly when every
+        item does) instead of one per item -- the outcome `all zero` also records that each item is zero on this path."""
+        polys = []
+        for x in items:
+            if isinstance(x, Wrapped):
+                x = self.unwrap(x, n)
+            if isinstance(x, bool):
+                if x:
+                    return True
+                continue
+            if not isinstance(x, Poly):
+                return any(self.truth(y, n) for y in items)
+            c = x.const_value()
+            if c is not None:
+                if c != 0:
+                    return True
+                continue
+            polys.append(x)
+        if not polys:
+            return False
+        if len(polys) == 1:
+            return self.truth(polys[0], n)
+        ss = Poly()
+        for p_ in polys:
+            ss = ss + p_ * p_
+        if ss.const_value() is not None:
+            return ss.const_value() != 0
+        key, orient = SignFacts.canon(ss)
+        nonneg = {0, 1} if orient == 1 else {0, -1}
+        self.facts[key] = self.facts.get(key, {-1, 0, 1}) & nonneg
+        ans = self.decide_sign(ss, {1}, "any of %d numbers (%s, ...) != 0" % (len(polys), polys[0].short(30)))
+        if not ans:
+            for p_ in polys:
+                k2, _ = SignFacts.canon(p_)
+                self.facts[k2] = {0}
+        return ans
+
+    def choose(self, n_options, desc):
+        """A nondeterministic choice among n_options alternatives (each is explored on its own path)."""
+        for k in range(n_options - 1):
+            self.choice_counter = getattr(self, "choice_counter", 0) + 1
+            if self.decide_sign(Poly.var("choice#%d" % self.choice_counter), {1}, "%s: alternative %d" % (desc, k + 1)):
+                return k
+        return n_options - 1
+
+    def elements(self, v, n):
+        """The elements of an iterable for a consumer that does not care about their order (sorted, set, sum, min, max, any, all)."""
+        self._order_free = getattr(self, "_order_free", 0) + 1
+        try:
+            return self.iterate(v, n)
+        finally:
+            self._order_free -= 1
+
+    def default_value(self, fn, slot, node):
+        """A default is evaluated once, when the function is defined: every call that omits the argument gets the SAME object."""
+        cache = self.__dict__.setdefault("_fn_defaults", {})
+        key = (id(fn), slot)
+        if key not in cache:
+            cache[key] = self.ev(node, {})
+        return cache[key]
 
     def run(self, fn, env):
         self.depth += 1
@@ -1131,7 +1460,7 @@ class Interp:
         elif isinstance(st, ast.AugAssign):
             self.augassign(st, env)
         elif isinstance(st, ast.If):
-            if self.truth(self.ev(st.test, env), st.test):
+            if self.test(st.test, env):
                 self.block(st.body, env)
             else:
                 self.block(st.orelse, env)
@@ -1294,6 +1623,8 @@ class Interp:
         "ModuleNotFoundError": "ImportError", "StopIteration": "Exception", "AttributeError": "Exception", "TypeError": "Exception",
         "ValueError": "Exception", "AssertionError": "Exception", "RuntimeError": "Exception", "LookupError": "Exception",
         "OSError": "Exception", "ArithmeticError": "Exception", "ImportError": "Exception", "NameError": "Exception", "Exception": "BaseException",
+        "MatrixRankWarning": "UserWarning", "SparseEfficiencyWarning": "SparseWarning", "SparseWarning": "Warning", "UserWarning": "Warning",
+        "RuntimeWarning": "Warning", "DeprecationWarning": "Warning", "FutureWarning": "Warning", "Warning": "Exception",
     }
 
     def exc_ancestors(self, name):
@@ -1427,6 +1758,15 @@ class Interp:
                 raise
             self.call_method(v, "__exit__", [None, None, None])
             return
+        if isinstance(v, Opaque) and v.kind == "warnctx":
+            # warnings.catch_warnings(): the filter list is restored on the way out, whatever happens inside
+            saved = list(self.warn_filters)
+            bind(None)
+            try:
+                self.exec_with(st, i + 1, env)
+            finally:
+                self.warn_filters[:] = saved
+            return
         bind(v)       # files (virtual), closing(x), np.errstate(...): the object itself
         self.exec_with(st, i + 1, env)
 
@@ -1525,7 +1865,14 @@ class Interp:
         if isinstance(v, IndexSet):
             return [Arr([Poly.const(i) for i, _ in v.pairs], 1), Arr([Poly.const(j) for _, j in v.pairs], 1)]
         if isinstance(v, (frozenset, set)):
-            return [self.unhash(x) for x in v]
+            # the iteration order of a set is an accident of hashing: every order (up to three elements; forwards and backwards beyond)
+            # is explored wherever the elements are consumed in order (order-free consumers go through `elements`)
+            items = sorted(v, key=repr)
+            if len(items) >= 2 and not getattr(self, "_order_free", 0):
+                import itertools as _it
+                perms = list(_it.permutations(items)) if len(items) <= 3 else [tuple(items), tuple(reversed(items))]
+                items = perms[self.choose(len(perms), "iteration order of a set of %d elements" % len(items))]
+            return [self.unhash(x) for x in items]
         if isinstance(v, dict):
             return [self.unhash(x) for x in v]      # iterating a dict yields its keys in insertion order
         if isinstance(v, Arr):
@@ -1702,6 +2049,31 @@ class Interp:
             owner.data[:] = [list(r) for r in zip(*base.data)]
             return
         idx = self.ev_index(sl, env)
+        if isinstance(idx, IndexGrid2):
+            if base.ndim != 2:
+                raise self.unsupported("pair of 2-D integer indices into a 1-D array", node)
+            nr, nc = base.shape
+            R_, C_ = len(idx.rows), len(idx.rows[0]) if idx.rows else 0
+            val = v if isinstance(v, Arr) else (self.to_arr(v, node) if isinstance(v, (list, tuple)) else None)
+            for i in range(R_):
+                for j in range(C_):
+                    r_, c_ = idx.rows[i][j], idx.cols[i][j]
+                    if not (-nr <= r_ < nr and -nc <= c_ < nc):
+                        raise PathRaise("IndexError(index out of bounds)", self.where(node))
+                    if val is None:
+                        x = v
+                    elif val.ndim == 2:
+                        vr, vc = val.shape
+                        if not ((vr == R_ or vr == 1) and (vc == C_ or vc == 1)):
+                            raise PathRaise("ValueError(shape mismatch: value array could not be broadcast to the indexing result)", self.where(node))
+                        x = val.data[i if vr > 1 else 0][j if vc > 1 else 0]
+                    else:
+                        if len(val.data) not in (C_, 1):
+                            raise PathRaise("ValueError(shape mismatch: value array could not be broadcast to the indexing result)", self.where(node))
+                        x = val.data[j if len(val.data) > 1 else 0]
+                    base.data[r_][c_] = _elem(x if isinstance(x, Quot) else self.scalar(x, node))
+            self.after_write(base)
+            return
         if isinstance(idx, NonZeroMask):
             raise self.unsupported("store through a value-dependent mask", node)
         if isinstance(idx, BoolArr):
@@ -1745,11 +2117,14 @@ class Interp:
         ncols = len(base.data[0]) if base.data else 0
         cols = list(range(ncols))[ci] if isinstance(ci, slice) else [ci]
         if isinstance(v, Arr) and v.ndim == 2:
-            if v.shape != (len(rows), len(cols)):
-                raise self.unsupported("block store shape mismatch", node)
+            vr, vc = v.shape
+            if not ((vr == len(rows) or vr == 1) and (vc == len(cols) or vc == 1)):
+                # numpy and scipy.sparse both refuse: the selected block (clipped to the array bounds) and the value differ in shape
+                raise PathRaise("ValueError(could not broadcast input array from shape %s into shape %s)" % (v.shape, (len(rows), len(cols))),
+                                self.where(node))
             for a, r in enumerate(rows):
                 for b, c in enumerate(cols):
-                    base.data[r][c] = v.data[a][b]
+                    base.data[r][c] = v.data[a if vr > 1 else 0][b if vc > 1 else 0]
             return
         vals = self.flat_values(v, len(rows) * len(cols), node)
         k = 0
@@ -2148,7 +2523,30 @@ class Interp:
             return self.ev(n.body, env)
         return self.ev(n.orelse, env)
 
+    def truth_of_or(self, n, env):
+        """Truth value of `a or b or c` when only its truth value is used and the operands are plain numbers read from names /
+        subscripts (no side effects): one decision for the whole chain.  None when the shape does not apply."""
+        if not (isinstance(n, ast.BoolOp) and isinstance(n.op, ast.Or) and len(n.values) >= 2 and
+                all(isinstance(e, (ast.Name, ast.Subscript, ast.Attribute, ast.Constant)) for e in n.values)):
+            return None
+        vals = [self.ev(e, env) for e in n.values]
+        if not all(isinstance(v, (Poly, Wrapped)) and not isinstance(v, bool) for v in vals):
+            # (already evaluated operands are pure reads: evaluating them again below is harmless)
+            return None
+        return self.any_nonzero(vals, n)
+
+    def test(self, node, env):
+        """Truth value of an expression in a boolean position (if / while / not / conditional expression)."""
+        r = self.truth_of_or(node, env)
+        if r is not None:
+            return r
+        return self.truth(self.ev(node, env), node)
+
     def ev_UnaryOp(self, n, env):
+        if isinstance(n.op, ast.Not):
+            r = self.truth_of_or(n.operand, env)
+            if r is not None:
+                return not r
         v = self.ev(n.operand, env)
         if isinstance(n.op, ast.Not):
             return not self.truth(v, n)
@@ -2539,6 +2937,17 @@ class Interp:
             a = self.to_arr(a, node)
         if isinstance(b, (list, tuple)) and isinstance(a, Arr):
             b = self.to_arr(b, node)
+        if isinstance(a, Arr3) or isinstance(b, Arr3):
+            if isinstance(a, (list, tuple)):
+                a = self.to_arr(a, node)
+            if isinstance(b, (list, tuple)):
+                b = self.to_arr(b, node)
+            if not all(isinstance(x, (Arr, Arr3, Poly, Wrapped)) for x in (a, b)):
+                raise self.unsupported("arithmetic between a stack of matrices and %r" % (b if isinstance(a, Arr3) else a,), node)
+            (sa_, fa), (sb_, fb) = nd_of(a), nd_of(b)
+            tgt = nd_broadcast_shape(sa_, sb_)
+            fa, fb = nd_expand(sa_, fa, tgt), nd_expand(sb_, fb, tgt)
+            return nd_wrap(tgt, [self.arith(op, x, y, node) for x, y in zip(fa, fb)])
         if isinstance(a, Cx) or isinstance(b, Cx):
             return self.cx_arith(op, a, b, node)
         if isinstance(a, Pose) or isinstance(b, Pose):
@@ -2624,6 +3033,10 @@ class Interp:
                 return Quot(a, b)
             if d == 0:
                 raise self.unsupported("division by constant zero", node)
+            if abs(Fraction(d)) <= Fraction(1, 1000) and not a.is_zero():
+                # exact over the reals, but in floating point the rounding error of the numerator is amplified by 1/d (a difference
+                # quotient): recorded for the obligations that promise an *exact* (analytic) result
+                self.events.append(("amplification", "division by the constant %s" % float(Fraction(d)), self.where(node)))
             return a.scale(Fraction(1) / Fraction(d))
         if op is ast.Mod:
             if b.const_value() is None and not (b.variables() <= {PI_NAME}):
@@ -2695,6 +3108,8 @@ class Interp:
             return slice(None)
         if isinstance(sl, ast.Tuple) and len(sl.elts) == 2 and not any(isinstance(e, ast.Slice) for e in sl.elts):
             vals = [self.ev(e, env) for e in sl.elts]
+            if all(isinstance(x, Arr) and x.ndim == 2 for x in vals):
+                return self.index_grid2(vals[0], vals[1], sl)
             if all(isinstance(x, (Arr, list)) for x in vals):
                 rows = [self.intval(x, sl) for x in (vals[0].data if isinstance(vals[0], Arr) else vals[0])]
                 cols = [self.intval(x, sl) for x in (vals[1].data if isinstance(vals[1], Arr) else vals[1])]
@@ -2714,6 +3129,10 @@ class Interp:
             return v
         if isinstance(v, tuple) and any(isinstance(x, slice) for x in v):
             return tuple(x if isinstance(x, slice) else self.intval(x, sl) for x in v)
+        if isinstance(v, Arr3) and all(isinstance(x, Poly) and x.const_value() is not None for m_ in v.mats for x in m_.flat()):
+            return IndexGrid3([[[self.intval(x, sl) for x in r] for r in m_.data] for m_ in v.mats])
+        if isinstance(v, tuple) and len(v) == 2 and all(isinstance(x, Arr) and x.ndim == 2 for x in v):
+            return self.index_grid2(v[0], v[1], sl)
         if isinstance(v, tuple) and len(v) == 2 and all(isinstance(x, (Arr, list)) for x in v):
             rows = [self.intval(x, sl) for x in (v[0].data if isinstance(v[0], Arr) else v[0])]
             cols = [self.intval(x, sl) for x in (v[1].data if isinstance(v[1], Arr) else v[1])]
@@ -2729,6 +3148,17 @@ class Interp:
         if isinstance(v, tuple) and all(isinstance(x, Poly) for x in v):
             return tuple(self.intval(x, sl) for x in v)
         return self.intval(v, sl)
+
+    def index_grid2(self, A_, B_, sl):
+        """a[A, B] with two (broadcastable) 2-D integer arrays: pairwise positions."""
+        ra, ca = A_.shape
+        rb, cb = B_.shape
+        if (ra == rb or ra == 1 or rb == 1) and (ca == cb or ca == 1 or cb == 1):
+            R_, C_ = max(ra, rb), max(ca, cb)
+            rows = [[self.intval(A_.data[i if ra > 1 else 0][j if ca > 1 else 0], sl) for j in range(C_)] for i in range(R_)]
+            cols = [[self.intval(B_.data[i if rb > 1 else 0][j if cb > 1 else 0], sl) for j in range(C_)] for i in range(R_)]
+            return IndexGrid2(rows, cols)
+        raise PathRaise("IndexError(shape mismatch: indexing arrays could not be broadcast together)", self.where(sl))
 
     def intval(self, v, node=None):
         if isinstance(v, Poly):
@@ -2770,6 +3200,46 @@ class Interp:
         return self.index(v, idx, n)
 
     def index(self, v, idx, node):
+        if isinstance(idx, IndexGrid2):
+            if not isinstance(v, Arr) or v.ndim != 2:
+                raise self.unsupported("pair of 2-D integer indices into %r" % (v,), node)
+            nr, nc = v.shape
+            if any(not -nr <= k < nr for r in idx.rows for k in r) or any(not -nc <= k < nc for r in idx.cols for k in r):
+                raise PathRaise("IndexError(index out of bounds)", self.where(node))
+            return Arr([[v.data[i][j] for i, j in zip(ri, ci)] for ri, ci in zip(idx.rows, idx.cols)], 2)
+        if isinstance(idx, IndexGrid3):
+            if not isinstance(v, Arr) or v.ndim != 1:
+                raise self.unsupported("3-D integer index into %r" % (v,), node)
+            n_ = len(v.data)
+            if any(not -n_ <= k < n_ for m_ in idx.mats for r in m_ for k in r):
+                raise PathRaise("IndexError(index out of bounds)", self.where(node))
+            return Arr3([Arr([[v.data[k] for k in r] for r in m_], 2) for m_ in idx.mats])
+        if isinstance(idx, tuple) and isinstance(v, (Arr, Arr3)) and not isinstance(v, Pose) and all(x is None or isinstance(x, (int, slice)) for x in idx) and \
+                (isinstance(v, Arr3) or len(idx) >= 3):
+            shp, fl = nd_of(v)
+            return nd_wrap(*nd_basic_index(shp, fl, idx, self.where(node)))
+        if isinstance(v, Arr3) and isinstance(idx, tuple) and len(idx) == 3:
+            full = slice(None, None, None)
+            a0, a1, a2 = idx
+            if a0 == full and a1 == full and isinstance(a2, int):
+                try:
+                    return Arr([[r[a2] for r in m_.data] for m_ in v.mats], 2)
+                except IndexError:
+                    raise PathRaise("IndexError", self.where(node))
+            if a0 == full and isinstance(a1, int) and a2 == full:
+                try:
+                    return Arr([list(m_.data[a1]) for m_ in v.mats], 2)
+                except IndexError:
+                    raise PathRaise("IndexError", self.where(node))
+            if isinstance(a0, int) and isinstance(a1, int) and isinstance(a2, int):
+                try:
+                    return v.mats[a0].data[a1][a2]
+                except IndexError:
+                    raise PathRaise("IndexError", self.where(node))
+            if isinstance(a0, int):
+                if not -len(v.mats) <= a0 < len(v.mats):
+                    raise PathRaise("IndexError", self.where(node))
+                return self.index(v.mats[a0], (a1, a2), node)
         if isinstance(v, Arr3):
             if isinstance(idx, int):
                 if not -len(v.mats) <= idx < len(v.mats):
@@ -3024,6 +3494,36 @@ class Interp:
             return v.__dict__.setdefault("attrs", {})
         if isinstance(v, Arr) and a in v.__dict__.get("attrs", {}):
             return v.__dict__["attrs"][a]
+        if isinstance(v, Arr3):
+            if a == "shape":
+                return tuple(Poly.const(x) for x in v.shape)
+            if a == "ndim":
+                return Poly.const(3)
+            if a == "size":
+                return Poly.const(len(nd_of(v)[1]))
+            if a in ("ravel", "flatten"):
+                return Opaque("callable", lambda v=v: Arr(nd_of(v)[1], 1))
+            if a == "copy":
+                return Opaque("callable", lambda v=v: Arr3([m_.copy() for m_ in v.mats]))
+            if a == "reshape":
+                def _reshape3(*shape, v=v, n=n):
+                    if len(shape) == 1 and isinstance(shape[0], (tuple, list)):
+                        shape = tuple(shape[0])
+                    dims = [self.intval(x, n) for x in shape]
+                    flat = nd_of(v)[1]
+                    if dims.count(-1) == 1:
+                        known = 1
+                        for d in dims:
+                            known *= d if d != -1 else 1
+                        dims[dims.index(-1)] = len(flat) // known if known else 0
+                    tot = 1
+                    for d in dims:
+                        tot *= d
+                    if tot != len(flat):
+                        raise PathRaise("ValueError(cannot reshape array)", self.where(n))
+                    return nd_wrap(dims, flat)
+                return Opaque("callable", _reshape3)
+            raise self.unsupported("attribute %s of a 3-D array" % a, n)
         if isinstance(v, Arr):
             if a == "T":
                 return v.T()
@@ -3297,6 +3797,25 @@ class Interp:
         if origin.startswith("logging") and leaf == "getLogger":
             return Opaque("logger")
         if origin.startswith("warnings"):
+            if leaf == "catch_warnings":
+                return Opaque("warnctx")
+            def catname(cat, default):
+                if isinstance(cat, ClassRef):
+                    return cat.name
+                if isinstance(cat, Opaque) and cat.payload and isinstance(cat.payload[0], str):
+                    return cat.payload[0].split(".")[-1]
+                return default
+            if leaf in ("simplefilter", "filterwarnings") and args and isinstance(args[0], str):
+                cat = kw.get("category", args[1] if leaf == "simplefilter" and len(args) > 1 else (args[2] if leaf == "filterwarnings" and len(args) > 2 else None))
+                self.warn_filters.insert(0, (args[0], catname(cat, "Warning")))
+                return None
+            if leaf == "resetwarnings":
+                del self.warn_filters[:]
+                return None
+            if leaf == "warn":
+                cat = kw.get("category", args[1] if len(args) > 1 else None)
+                self.emit_warning(catname(cat, "UserWarning"), n)
+                return None
             return None
         if origin in ("io.StringIO", "StringIO.StringIO"):
             init_ = args[0] if args else ""
@@ -3607,6 +4126,9 @@ class Interp:
             if isinstance(c, ClassRef) and c.name in self.pkg.classes:
                 if v.ndim != 1:
                     raise self.unsupported("view of 2-D array as pose", n)
+                if getattr(v, "foreign_dtype", False):
+                    raise LossyOperation("a pose that views an array whose dtype is the caller's: every later operation on it computes in "
+                                         "that dtype (integer wrap-around / truncation, float32 rounding)", self.where(n))
                 return Pose(c.name, v.data)     # a view: the pose shares its storage with the array it was made from
             if isinstance(c, ClassRef) and c.name == "ndarray":
                 return Arr(v.data, v.ndim)      # a plain-ndarray view shares the data
@@ -3699,7 +4221,7 @@ class Interp:
             self.after_write(v)
             return None
         if name == "any":
-            return any(self.truth(x, n) for x in v.flat())
+            return self.any_nonzero(list(v.flat()), n)
         raise self.unsupported("ndarray method %s" % name, n)
 
     def py_method(self, v, name, args, kw, n):
@@ -3723,6 +4245,9 @@ class Interp:
             if name == "reverse":
                 v.reverse()
                 return None
+            if name == "sort":
+                v[:] = self.sort_values(list(v), kw.get("key"), kw.get("reverse", False), n)
+                return None
             if name == "clear":
                 del v[:]
                 return None
@@ -3742,21 +4267,21 @@ class Interp:
                 v.discard(self.hashable(args[0], n))
                 return None
             if name == "update" and isinstance(v, set):
-                for x in self.iterate(args[0], n):
+                for x in self.elements(args[0], n):
                     v.add(self.hashable(x, n))
                 return None
             if name == "isdisjoint":
-                return not any(self.hashable(x, n) in v for x in self.iterate(args[0], n))
+                return not any(self.hashable(x, n) in v for x in self.elements(args[0], n))
             if name == "issubset":
-                other = set(self.hashable(x, n) for x in self.iterate(args[0], n))
+                other = set(self.hashable(x, n) for x in self.elements(args[0], n))
                 return set(v) <= other
             if name == "intersection":
-                other = set(self.hashable(x, n) for x in self.iterate(args[0], n))
+                other = set(self.hashable(x, n) for x in self.elements(args[0], n))
                 return set(v) & other
             if name in ("union", "copy"):
                 r = set(v)
                 for a_ in args:
-                    for x in self.iterate(a_, n):
+                    for x in self.elements(a_, n):
                         r.add(self.hashable(x, n))
                 return r
         if isinstance(v, dict):
@@ -4023,6 +4548,22 @@ class Interp:
     def isinstance_(self, v, c, n):
         if isinstance(c, (tuple, list)):
             return any(self.isinstance_(v, x, n) for x in c)
+        if isinstance(c, Opaque) and c.kind == "import" and c.payload and isinstance(c.payload[0], str) and c.payload[0].startswith("numbers."):
+            # the abstract numeric tower: python and numpy real scalars are Real (ints are also Integral / Rational); bool is an int
+            leaf_ = c.payload[0].split(".")[-1]
+            if isinstance(v, Wrapped):
+                v = self.unwrap(v, n)
+            if isinstance(v, Cx):
+                return leaf_ in ("Number", "Complex")
+            if isinstance(v, bool):
+                return leaf_ in ("Number", "Complex", "Real", "Rational", "Integral")
+            if isinstance(v, (Poly, Quot)):
+                if leaf_ in ("Number", "Complex", "Real"):
+                    return True
+                if leaf_ in ("Rational", "Integral"):
+                    return isinstance(v, Poly) and self.is_int_obj(v)
+            if leaf_ in ("Number", "Complex", "Real", "Rational", "Integral"):
+                return False
         if not isinstance(c, ClassRef):
             raise self.unsupported("isinstance against %r" % (c,), n)
         t = self.type_of(v, n)
@@ -4102,7 +4643,7 @@ class Interp:
         if name == "reversed":
             return LazyIter(list(reversed(self.iterate(args[0], n))))
         if name in ("set", "frozenset"):
-            seq = self.iterate(args[0], n) if args else []
+            seq = self.elements(args[0], n) if args else []
             r = set(self.hashable(x, n) for x in seq)
             return r if name == "set" else frozenset(r)
         if name == "dict":
@@ -4200,34 +4741,7 @@ class Interp:
         if name == "filter":
             return LazyIter([x for x in self.iterate(args[1], n) if (self.truth(self.call_value(args[0], [x], n), n) if args[0] is not None else self.truth(x, n))])
         if name == "sorted":
-            seq = list(self.iterate(args[0], n))
-            keyf = kw.get("key")
-            rev = kw.get("reverse", False)
-            keys = [self.call_value(keyf, [x], n) for x in seq] if keyf is not None else list(seq)
-            if all(isinstance(x, str) for x in keys):
-                order = sorted(range(len(seq)), key=lambda i: keys[i], reverse=bool(rev))
-                return [seq[i] for i in order]
-            if not all(isinstance(x, Poly) for x in keys):
-                raise self.unsupported("sorted() of non-numeric keys", n)
-            # stable insertion sort; every comparison of symbolic keys is a decision (explored both ways)
-            order = []
-            for i in range(len(seq)):
-                pos = len(order)
-                while pos > 0:
-                    j = order[pos - 1]
-                    d = keys[i] - keys[j]
-                    if d.is_zero():
-                        break
-                    if not self.decide_sign(d, {-1}, "%s < %s" % (keys[i].short(30), keys[j].short(30))):
-                        break
-                    pos -= 1
-                order.insert(pos, i)
-            out = [seq[i] for i in order]
-            if rev is True:
-                # reverse=True keeps the original order of equal elements: sort descending == reverse of ascending only for
-                # distinct keys, which is what the decisions above established or left to `==` (treated as equal => stable)
-                out = list(reversed(out))
-            return out
+            return self.sort_values(list(self.elements(args[0], n)), kw.get("key"), kw.get("reverse", False), n)
         if name == "id":
             return Poly.var("pyid#%d" % id(args[0]))
         if name == "complex":
@@ -4278,16 +4792,16 @@ class Interp:
                     if self.truth(x, n) != (name == "all"):
                         return name == "any"
             if name == "all":
-                return all(self.truth(x, n) for x in self.iterate(src, n))
-            return any(self.truth(x, n) for x in self.iterate(src, n))
+                return all(self.truth(x, n) for x in self.elements(src, n))
+            return any(self.truth(x, n) for x in self.elements(src, n))
         if name == "sum":
-            items = self.iterate(args[0], n)
+            items = self.elements(args[0], n)
             acc = args[1] if len(args) > 1 else Poly()
             for x in items:
                 acc = self.arith(ast.Add, acc, x, n)
             return acc
         if name in ("max", "min"):
-            items = list(args) if len(args) > 1 else self.iterate(args[0], n)
+            items = list(args) if len(args) > 1 else self.elements(args[0], n)
             best = items[0]
             for x in items[1:]:
                 d = self.scalar(x, n) - self.scalar(best, n)
@@ -4420,6 +4934,8 @@ class Interp:
             (isinstance(d, ClassRef) and d.name == "float")
 
     def to_arr(self, v, node):
+        if isinstance(v, Arr3):
+            return Arr3([m_.copy() for m_ in v.mats])
         if isinstance(v, Obj) and getattr(v, "tuple_fields", None):
             v = [v.fields[k] for k in v.tuple_fields]
         if isinstance(v, (list, tuple)) and any(isinstance(x, Obj) and getattr(x, "tuple_fields", None) for x in v):
@@ -4430,6 +4946,11 @@ class Interp:
             return Arr([list(r) for r in v.data], 2) if v.ndim == 2 else Arr(list(v.data), 1)
         if isinstance(v, (list, tuple)):
             if v and all(isinstance(r, (list, tuple, Arr)) for r in v):
+                if all(isinstance(r, (list, tuple)) and r and all(isinstance(x, (list, tuple)) for x in r) for r in v) or \
+                        all(isinstance(r, Arr) and r.ndim == 2 for r in v):
+                    mats = [self.to_arr(r, node) for r in v]
+                    if all(m_.ndim == 2 and m_.shape == mats[0].shape for m_ in mats):
+                        return Arr3(mats)            # three levels of nesting: a stack of matrices
                 rows = [list(r.data) if isinstance(r, Arr) else [self.scalar(x, node) for x in r] for r in v]
                 if any(isinstance(x, list) for r in rows for x in r):
                     raise self.unsupported("array with more than 2 dimensions", node)
@@ -4610,6 +5131,8 @@ class Interp:
         args = [a.drain() if isinstance(a, LazyIter) else a for a in args]
         if name in LOSSY_NP:
             raise LossyOperation("np.%s" % name, self.where(n))
+        if name in ("bool_", "bool8") and len(args) == 1 and not kw:
+            return self.truth(args[0], n) if not isinstance(args[0], bool) else args[0]       # np.bool_(x): the truth value as a numpy scalar
         if name == "indices":
             shp = args[0]
             dims = [self.intval(x, n) for x in shp] if isinstance(shp, (tuple, list)) else [self.intval(shp, n)]
@@ -4633,6 +5156,9 @@ class Interp:
                 return c_
             if isinstance(v, Pose) and name == "asanyarray":
                 return v
+            if getattr(v, "foreign_dtype", False) and "dtype" in kw:
+                c_ = self.to_arr(v, n)
+                return c_.copy() if c_ is v else c_         # converted to the requested type: a new float64 array
             if name in ("asarray", "asanyarray", "ascontiguousarray") and isinstance(v, Arr) and "dtype" not in kw or \
                     (name in ("asarray", "asanyarray", "ascontiguousarray") and isinstance(v, Arr) and self.is_float64(kw.get("dtype"))):
                 # no copy is made for an array that already has the requested type
@@ -4845,8 +5371,10 @@ class Interp:
                 vals = [self.truth(x, n) for x in v]
                 return all(vals) if name == "all" else any(vals)
             if isinstance(v, Arr):
+                if name == "any":
+                    return self.any_nonzero(list(v.flat()), n)
                 vals = [self.truth(x, n) for x in v.flat()]
-                return all(vals) if name == "all" else any(vals)
+                return all(vals)
             if isinstance(v, (Poly, Wrapped)):
                 return self.truth(v, n)
             raise self.unsupported("np.%s of %r" % (name, v), n)
@@ -4907,6 +5435,14 @@ class Interp:
             if not isinstance(a_, Arr) or not isinstance(b_, Arr):
                 return False
             return a_ is b_ or a_.data is b_.data
+        if name == "broadcast_to" and len(args) >= 2:
+            src = args[0] if isinstance(args[0], (Arr, Arr3, Poly)) else self.to_arr(args[0], n)
+            shp_ = args[1] if isinstance(args[1], (tuple, list)) else [args[1]]
+            tgt = tuple(self.intval(x, n) for x in shp_)
+            ssh, sfl = nd_of(src)
+            if len(ssh) > len(tgt) or nd_broadcast_shape(ssh, tgt) != tgt:
+                raise PathRaise("ValueError(operands could not be broadcast together with remapped shapes)", self.where(n))
+            return nd_wrap(tgt, nd_expand(ssh, sfl, tgt))        # (numpy returns a read-only view; a store into it raises there)
         if name == "broadcast_shapes":
             shapes = [tuple(self.intval(x, n) for x in (sh if isinstance(sh, (tuple, list)) else [sh])) for sh in args]
             nd = max((len(sh) for sh in shapes), default=0)
@@ -5040,7 +5576,7 @@ class Interp:
                 k %= len(a.data)
                 return Arr(a.data[-k:] + a.data[:-k] if k else list(a.data), 1)
         if name == "fsum":
-            return sum((self.scalar(x, n) for x in self.iterate(args[0], n)), Poly())
+            return sum((self.scalar(x, n) for x in self.elements(args[0], n)), Poly())
         if name == "hypot":
             x, y = self.scalar(args[0], n), self.scalar(args[1], n)
             return poly.atom("norm", x * x + y * y)
@@ -5141,7 +5677,11 @@ class Interp:
             a, b = self.to_arr(args[0], n), self.to_arr(args[1], n)
             if a.shape != b.shape:
                 return False
-            return all(self.equal(x, y, n) for x, y in zip(a.flat(), b.flat()))
+            fa, fb = a.flat(), b.flat()
+            if all(isinstance(x, (Poly, Wrapped)) for x in fa + fb):
+                # one decision for the whole comparison (the sum of squared differences vanishes exactly when the arrays are equal)
+                return not self.any_nonzero([self.scalar(x, n) - self.scalar(y, n) for x, y in zip(fa, fb)], n)
+            return all(self.equal(x, y, n) for x, y in zip(fa, fb))
         if name == "float64":
             return self.scalar(args[0], n)
         if name == "isscalar":
@@ -5276,6 +5816,8 @@ def _ev_call_with_super(self, n, env):
         if isinstance(f, Opaque) and f.kind == "superbound":
             args = [self.ev(a, env) for a in n.args]
             kw = {k.arg: self.ev(k.value, env) for k in n.keywords}
+            if n.func.attr == "__new__":
+                return self.call_function(f.payload[0], args, kw)       # __new__ is static: the class is passed explicitly
             return self.call_function(f.payload[0], [f.payload[1]] + args, kw)
         if isinstance(f, Opaque) and f.kind == "noop":
             return None
@@ -5327,11 +5869,20 @@ class PathResult:
         self.conds, self.value, self.raised, self.events, self.wrap_uses, self.thin = conds, value, raised, events or [], wrap_uses, thin
 
 
+EXPLORE_SECONDS = float(os.environ.get("GSVERIF_EXPLORE_SECONDS", "240"))
+
+
 def explore(pkg, run, hook=None, max_paths=256):
     """Enumerate all paths of `run(interp)` (trace partitioning by re-interpretation with a decision script)."""
+    import time as _time
     results = []
     stack = [[]]
+    t_end = _time.time() + EXPLORE_SECONDS
     while stack:
+        if results and _time.time() > t_end:
+            e_ = Unsupported("path exploration exceeded %.0f s after %d paths" % (EXPLORE_SECONDS, len(results)))
+            e_.partial = results
+            raise e_
         script = stack.pop()
         it = Interp(pkg, script=script, hook=hook)
         try:
